@@ -27,7 +27,14 @@ import time
 from harness import framework, tlc, c03
 
 
+# TLC workers of the generator runs (default: all cores); a run with more than 2 workers needs 3 of the
+# machine-wide TLC slots at once and can starve on a crowded box: VERIF_GEN_WORKERS=2 avoids that
+GEN_WORKERS = int(os.environ.get("VERIF_GEN_WORKERS", "0") or 0) or None
+MC_WORKERS = int(os.environ.get("VERIF_MC_WORKERS", "0") or 0) or None     # same for the parallel model-checking runs
+
+
 def run_models(ctx, cfgs, workers):
+    workers = MC_WORKERS or workers
     def one(cfg):
         return cfg, tlc.run("Ispec", cfg, workers=workers, tag="c03" + cfg[:-4], timeout=7200, xmx="4g", env=c03.jvm_env(workers))
     with mp.pool.ThreadPool(len(cfgs)) as tp:
@@ -39,7 +46,10 @@ def run_models(ctx, cfgs, workers):
 def gen_and_replay(ctx, cfg, kind, simulate=None, depth=None):
     wd = tlc.workdir("c03_" + kind)
     spool = os.path.join(wd, "beh.spool")
-    res = tlc.run("Ispec", cfg, simulate=simulate, depth=depth, seed=ctx.seed if simulate else None,
+    if simulate:
+        # TLC's -simulate num=N is per worker: keep the total number of runs independent of the worker count
+        simulate = "num=%d" % max(1, int(simulate) // (GEN_WORKERS or tlc.NCPU))
+    res = tlc.run("Ispec", cfg, simulate=simulate, depth=depth, seed=ctx.seed if simulate else None, workers=GEN_WORKERS,
                   spool=spool, tag="c03" + kind, timeout=7200, env=c03.jvm_env(8, {"VERIF_SEED": str(ctx.seed)}), xmx="4g")
     ctx.add_tlc(res, "G:" + cfg)
     chunks = tlc.spool_chunks(spool, 64)
@@ -212,7 +222,7 @@ def run(ctx):
     else:
         # --- M ---------------------------------------------------------------------------------------
         if quick:
-            run_models(ctx, ["IspecMC_quick.cfg", "IspecMC_dec_quick.cfg", "IspecMC_lex_quick.cfg"], workers=5)
+            run_models(ctx, ["IspecMC_quick.cfg", "IspecMC_dec_quick.cfg", "IspecMC_lex_quick.cfg"], workers=4)
         else:
             run_models(ctx, ["IspecMC_thorough.cfg", "IspecMC_dec_thorough.cfg", "IspecMC_lex_thorough.cfg"], workers=5)
         res = tlc.run("Ispec", "IspecMC_dev.cfg", expect_violation=True, tag="c03dev", workers=4, xmx="2g", env=c03.jvm_env(2))
@@ -223,9 +233,9 @@ def run(ctx):
     t0 = time.time()
     # --- G ---------------------------------------------------------------------------------------
     gens = ([("IspecGen_all8_quick.cfg", "all8", None), ("IspecGen_quick.cfg", "exhaustive", None),
-             ("IspecSim.cfg", "simulated", "num=40")] if quick else
+             ("IspecSim.cfg", "simulated", 640)] if quick else
             [("IspecGen_all8_thorough.cfg", "all8", None), ("IspecGen_thorough.cfg", "exhaustive", None),
-             ("IspecSim.cfg", "simulated", "num=600")])
+             ("IspecSim.cfg", "simulated", 9600)])
     for cfg, kind, sim in gens:
         gen_and_replay(ctx, cfg, kind, simulate=sim, depth=16 if sim else None)
         if failfast(ctx):
